@@ -441,11 +441,11 @@ def run(ctx):
     for r in pmap('harness.props.c15', 'lru_shard', args):
         res.merge(r)
     t1 = time.time()
-    nr = ctx.n(200, 3000)
+    nr = ctx.n(200, 2000)
     for r in pmap('harness.props.c15', 'lru_random_shard', [(ctx.seed, i, nr) for i in range(16)]):
         res.merge(r)
     t2 = time.time()
-    nh = ctx.n(190, 3000)
+    nh = ctx.n(190, 1800)
     for r in pmap('harness.props.c15', 'hist_shard', [(ctx.seed, i, nh, 25) for i in range(16)]):
         res.merge(r)
     t3 = time.time()
